@@ -124,6 +124,9 @@ type Scenario struct {
 	Deltas []int `json:"deltas,omitempty"`
 	// idle: who speaks first after the silence
 	ServerFirst bool `json:"server_first,omitempty"`
+	// count: the client application accepts and finishes the first stream before it accepts the others (a lagging
+	// accept loop), and the peer goes on using the streams it has opened meanwhile
+	Lag bool `json:"lag,omitempty"`
 }
 
 // Case is one generated configuration with the scenarios to run on it.
@@ -288,6 +291,7 @@ func genScenario(t *rapid.T, kind string) Scenario {
 		s.Extra = extra()
 	case "count":
 		s.Type = rapid.SampledFrom([]string{"uni", "bidi"}).Draw(t, "ctype")
+		s.Lag = rapid.Bool().Draw(t, "lag")
 	case "dgram":
 		n := rapid.IntRange(1, 6).Draw(t, "ndgram")
 		for i := 0; i < n; i++ {
